@@ -1,0 +1,32 @@
+//go:build verif
+
+package lexer
+
+// This file only exists when building with "-tags verif". It exposes
+// the lexer's internal counters to the verification harness in /verif.
+
+// VerifLexerState is a copy of lexer's internal counters
+type VerifLexerState struct {
+	Pos             int
+	ReadPos         int
+	Line            uint
+	Col             uint
+	IsHTML          bool
+	IsDirective     bool
+	DirectiveParens int
+	CurlyBraces     int
+}
+
+// VerifState returns a copy of lexer's internal counters
+func (l *Lexer) VerifState() VerifLexerState {
+	return VerifLexerState{
+		Pos:             l.pos,
+		ReadPos:         l.readPos,
+		Line:            l.line,
+		Col:             l.col,
+		IsHTML:          l.isHTML,
+		IsDirective:     l.isDirective,
+		DirectiveParens: l.countDirectiveParentheses,
+		CurlyBraces:     l.countCurlyBraces,
+	}
+}
